@@ -154,7 +154,7 @@ Proof.
     destruct (opt_all (map (fun cf => option_map (fun ab => (fst cf, FAff (fst ab) (snd ab) (snd cf))) (aff_of true op (dget (fst cf) sv))) (snd pc))) as [chs|] eqn:E; [|discriminate].
     inversion Hpc; subst. cbn [snd]. apply opt_all_keys in E. destruct K as (K1 & K2).
     split; [unfold dkeys; rewrite E; exact K1|]. intros c. rewrite dmem_memb. unfold dkeys. rewrite E. rewrite <- K2, dmem_memb. reflexivity.
-  - (* ArithR *) cbn [wf] in Hwf. apply andb_prop in Hwf as (_ & Hwf). apply andb_prop in Hwf as (Hwf & _).
+  - (* ArithR *) cbn [wf] in Hwf. apply andb_prop in Hwf as (_ & Hwf). apply andb_prop in Hwf as (Hwf & _). apply andb_prop in Hwf as (Hwf & _).
     cbn [denote channels] in *. destruct (denote p rho) as [b|] eqn:Eb; [|discriminate].
     destruct (scalar_eval rho s (channels p)) as [sv|]; [|discriminate].
     specialize (IHp _ _ Hwf Eb). apply opt_all_map_Forall2 in Hd. clear Eb.
